@@ -15,7 +15,7 @@ RULE = ('scenario (Hypothesis): 1-3 small programs read through io.read (open st
         'text), printer in {pretty, minify, minify+obfuscate}, source-map arrangement in {none, separate stream, same '
         'object as output, separate factory}, output as open stream or factory, stream names absolute / relative / '
         'relative with directory / missing, sourcemap_normalize_mappings, sourcemap_normalize_paths, '
-        'source_mapping_url in {default, explicit, None}, nodes given as list / tuple / iterator / generator, output stream encoding in {unset, utf-8, utf-16, ascii, latin-1, shift_jis} with programs whose identifiers lie outside those code pages (an inline map that cannot be encoded must fail, not be mislabelled). Streams are recording doubles. Fault points, enumerated '
+        'source_mapping_url in {default, explicit, None}, nodes given as a single node / list / tuple / iterator / lazily produced generator (each pull is a fault point), programs whose printed form is empty, output stream encoding in {unset, utf-8, utf-16, ascii, latin-1, shift_jis} with programs whose identifiers lie outside those code pages (an inline map that cannot be encoded must fail, not be mislabelled). Streams are recording doubles. Fault points, enumerated '
         'exhaustively per scenario: the scenario is run fault-free to count every factory call, read, parser call, '
         'fragment pulled from the unparser, write and writelines; then re-run once per event with a marker exception '
         'raised at exactly that event. Oracle: fault-free - output text == fresh printer text + trailer; trailer URL '
@@ -147,9 +147,19 @@ def run(sc, fault_at=None):
         real_printer = make_printer(sc['printer'])
 
         def unparser(node):
-            for frag in real_printer(node):
-                ctl.tick('fragment')
-                yield frag
+            # what the printer returns is handed on in kind (a generator stays lazy, a sequence stays a
+            # sequence); every fragment is an event
+            res = real_printer(node)
+            if isinstance(res, (list, tuple)):
+                for _ in res:
+                    ctl.tick('fragment')
+                return res
+
+            def ticking():
+                for frag in res:
+                    ctl.tick('fragment')
+                    yield frag
+            return ticking()
         if sc['out_factory']:
             out = Factory(ctl, made, name=out_name, role='out', encoding=sc.get('encoding'))
         else:
@@ -178,7 +188,13 @@ def run(sc, fault_at=None):
             elif how == 'iterator':
                 nodes = iter(nodes)
             elif how == 'generator':
-                nodes = (n for n in list(nodes))
+                def lazily(items):
+                    # a lazily produced sequence of nodes (the README idiom `(io.read(es5, f) for f in files)`):
+                    # pulling an item is an event of its own and may fail
+                    for item in items:
+                        ctl.tick('nodes_iter')
+                        yield item
+                nodes = lazily(list(nodes))
         cio.write(unparser, nodes, out, sm, **kw)
         res['phase'] = 'done'
     except BaseException as e:
@@ -386,6 +402,8 @@ SMALL = ['a = 1;', 'var x = function(a) { return a + 1; };', 'if (a) { b(); } el
          'function f(longName, other) { return longName * other; }', '// c\nfoo(bar);\n', '',
          u'function g(\u0434\u043b\u0438\u043d\u0430, \u65e5) { return \u0434\u043b\u0438\u043d\u0430 + \u65e5; }',
          u'var \u00e9t\u00e9 = 1, \u03a9 = \u00e9t\u00e9;']
+# programs for which a printer may produce no fragment at all
+EMPTYISH = ['', '  \n', '/* only a comment */', '// c\n', ';', '{}']
 INVALID = ['a = ;', 'function (', '"unterminated', 'x = /[a;', 'y = 1; z = /re', 'f(/(/)']
 
 
@@ -412,6 +430,12 @@ def scenario(draw):
         'nodes_as': draw(st.sampled_from(['list', 'list', 'tuple', 'iterator', 'generator'])),
         'invalid_index': None,
     }
+    if draw(st.integers(0, 9)) == 0:
+        # a single node (not a list) whose printed form may be empty
+        sc['programs'] = [draw(st.sampled_from(EMPTYISH))]
+        sc['read_factory'] = sc['read_factory'][:1]
+        sc['as_list'] = False
+        n = 1
     if draw(st.integers(0, 7)) == 0:
         i = draw(st.integers(0, n - 1))
         sc['programs'][i] = draw(st.sampled_from(INVALID))
